@@ -15,6 +15,9 @@ pub enum Placement {
     ChildrenFirst,
     /// level order with 5 bytes of padding between nodes
     Padded,
+    /// a tree whose leaves sit at different depths (every inner node holds an inner node followed
+    /// by a leaf: legal, since every node says itself whether it is a leaf), nodes in level order
+    Ragged,
 }
 
 #[derive(Clone, Debug, Serialize, Deserialize)]
@@ -186,6 +189,29 @@ fn build_tree(items: Vec<LeafItem>, fanout: usize) -> Node {
     level.pop().unwrap()
 }
 
+/// Left-deep tree: ((((L0 L1) L2) L3) ...): the leaves are still in position order from left to
+/// right, but at depths n-1, n-1, n-2, ..., 1.
+fn build_ragged(items: Vec<LeafItem>, fanout: usize) -> Node {
+    let mut leaves: Vec<Node> = items.chunks(fanout).map(|c| Node::Leaf(c.to_vec())).collect();
+    if leaves.len() < 3 {
+        return build_tree(items, fanout);
+    }
+    let rest = leaves.split_off(2);
+    let mut node = Node::Inner(leaves);
+    for l in rest {
+        node = Node::Inner(vec![node, l]);
+    }
+    node
+}
+
+fn shape(items: Vec<LeafItem>, fanout: usize, placement: Placement) -> Node {
+    if placement == Placement::Ragged {
+        build_ragged(items, fanout)
+    } else {
+        build_tree(items, fanout)
+    }
+}
+
 fn node_size(n: &Node) -> u64 {
     match n {
         Node::Leaf(v) => 4 + 32 * v.len() as u64,
@@ -218,7 +244,7 @@ fn write_rtree(w: &mut W, root: &Node, fanout: usize, item_count: u64, ips: u32,
     // emission order of non-root nodes
     let mut order: Vec<usize> = (1..n).collect();
     match placement {
-        Placement::LevelOrder | Placement::Padded => order.sort_by_key(|i| (depth_of[*i], *i)),
+        Placement::LevelOrder | Placement::Padded | Placement::Ragged => order.sort_by_key(|i| (depth_of[*i], *i)),
         Placement::DepthFirst => {}
         Placement::ChildrenFirst => order.sort_by_key(|i| (std::cmp::Reverse(depth_of[*i]), *i)),
     }
@@ -564,7 +590,7 @@ pub fn encode(spec: &EncSpec) -> Encoded {
     let main_ips = 64u32;
     let mut index_off = 0u64;
     if !spec.index_last {
-        index_off = write_rtree(&mut w, &build_tree(leaves.clone(), spec.fanout), spec.fanout, leaves.len() as u64, main_ips, end_of_data, spec.placement);
+        index_off = write_rtree(&mut w, &shape(leaves.clone(), spec.fanout, spec.placement), spec.fanout, leaves.len() as u64, main_ips, end_of_data, spec.placement);
     }
     // zoom levels from the per-base signal
     let mut zooms_out = vec![];
@@ -641,12 +667,12 @@ pub fn encode(spec: &EncSpec) -> Encoded {
             zleaves.push(LeafItem { chrom_s: first.chrom, start: first.start, chrom_e: last.chrom, end, off, size: bytes.len() as u64 });
         }
         let zend = w.pos();
-        let zindex_off = write_rtree(&mut w, &build_tree(zleaves.clone(), spec.fanout), spec.fanout, zleaves.len() as u64, spec.zoom_ips as u32, zend, if spec.placement == Placement::ChildrenFirst { Placement::LevelOrder } else { spec.placement });
+        let zindex_off = write_rtree(&mut w, &shape(zleaves.clone(), spec.fanout, spec.placement), spec.fanout, zleaves.len() as u64, spec.zoom_ips as u32, zend, if spec.placement == Placement::ChildrenFirst { Placement::LevelOrder } else { spec.placement });
         zoom_hdrs.push((res, zdata_off, zindex_off));
         zooms_out.push((res, recs));
     }
     if spec.index_last {
-        index_off = write_rtree(&mut w, &build_tree(leaves.clone(), spec.fanout), spec.fanout, leaves.len() as u64, main_ips, end_of_data, spec.placement);
+        index_off = write_rtree(&mut w, &shape(leaves.clone(), spec.fanout, spec.placement), spec.fanout, leaves.len() as u64, main_ips, end_of_data, spec.placement);
     }
     if spec.trailing_magic {
         w.u32(magic);
